@@ -131,11 +131,10 @@ func gen(r *hx.Rng, stores []string) Case {
 	}
 	// layout
 	c.ChunkSize = []int{1000, 4096, 10000, 50000, 1 << 20}[r.Pick(2, 3, 3, 2, 1)]
-	// Not generated: min-chunk-size layers with the db store. Its file reader fails on multi-chunk files whose chunks
-	// share a stream ("discard of remaining -1000 bytes", db/reader.go pre-read loop) where the memory store reads the
-	// same blob fine: a defect of the db store (C05/C02 territory, reported to its owner); prefetch and background fetch of
-	// such a layer return an error, so C15 claims nothing about it.
-	if r.Chance(1, 4) && c.Store == "memory" {
+	// (min-chunk-size layers are generated for both stores: the db store's file reader used to fail on multi-chunk files
+	// whose chunks share a stream, "discard of remaining -1000 bytes"; found by this harness, repaired by
+	// patches/C05-fix-8.diff.)
+	if r.Chance(1, 4) {
 		c.MinChunk = []int{500, 3000, 20000}[r.Intn(3)]
 		// (Empty regular files in such a layer used to break every read of the first stream: an empty file has Offset 0 /
 		// InnerOffset 0 in the TOC and was taken for a member of the stream at offset 0 by estargz's fileReader.ReadAt,
@@ -556,9 +555,6 @@ func Main(stores []string, factories map[string]StoreFactory) {
 	}
 	for i, c := range corpus() {
 		c.Store = stores[i%len(stores)]
-		if c.MinChunk > 0 {
-			c.Store = "memory" // see gen: the db store cannot read min-chunk-size layers
-		}
 		emit(c)
 	}
 	r := hx.NewRng(ctx.Seed*0x2545F4914F6CDD1D + 0x15) // hx seeds n and n+1 give streams shifted by one case
